@@ -198,6 +198,7 @@ func c08History(h *H) {
 	}
 	var files []restic.ID
 	bad := map[restic.ID]bool{}
+	content := map[restic.ID]c08Index{}
 	save := func(f c08Index) restic.ID {
 		buf, err := json.Marshal(f)
 		if err != nil {
@@ -219,7 +220,6 @@ func c08History(h *H) {
 		}
 		return id
 	}
-	content := map[restic.ID]c08Index{}
 	remove := func(i int) {
 		id := files[i]
 		if err := be.Remove(ctx, backendHandle(restic.IndexFile, id)); err != nil {
@@ -230,6 +230,36 @@ func c08History(h *H) {
 		h.Rec("del", c56IDTok(id))
 	}
 	allowBad := h.Intn(6) == 0
+	if h.Intn(8) == 0 {
+		// a load that fails half way (one undecodable file among many), then files are removed
+		// before the next load: nothing of the aborted load may survive
+		h.Rec("profile", "aborted-load")
+		allowBad = true
+		nf := 6 + h.Intn(30)
+		for i := 0; i < nf; i++ {
+			f := g.file()
+			content[save(f)] = f
+		}
+		garbage := append([]byte("not json"), h.Bytes(3)...)
+		id, err := unpacked.SaveUnpacked(ctx, restic.IndexFile, garbage)
+		if err != nil {
+			panic(err)
+		}
+		files = append(files, id)
+		bad[id] = true
+		h.Rec("bad", c56IDTok(id))
+		if err := repo.LoadIndex(ctx, restic.NoopTerminalCounterFactory); err != nil {
+			h.Rec("load", "err")
+		} else {
+			h.Rec("load", "ok")
+		}
+		// remove the undecodable file and some of the others
+		for i := len(files) - 1; i >= 0; i-- {
+			if bad[files[i]] || h.Intn(3) == 0 {
+				remove(i)
+			}
+		}
+	}
 	nops := 2 + h.Intn(24)
 	if h.Thorough() {
 		nops = 2 + h.Intn(80)
